@@ -39,3 +39,26 @@ Print Assumptions clean_report_continuous_assignments.
 Theorem clean_report_no_duplicate_declarations : forall D ext, lint D ext = [] -> forall m, In m D -> duplicate_decls m = [].
 Proof. intros D ext H m. exact (no_name_is_declared_twice D ext H m). Qed.
 Print Assumptions clean_report_no_duplicate_declarations.
+
+(* registers only procedurally: what an always block assigns is declared as a variable, and everything it
+   reads, writes or uses as a clock is declared *)
+Theorem clean_report_always_blocks : forall D ext, lint D ext = [] ->
+  forall m sn body x, In m D -> In (IAlways sn body) (m_items m) ->
+  (In x (stmt_reads body ++ stmt_writes body) -> declared (items_decls 50 (m_items m)) x = true) /\
+  (In x (stmt_writes body) -> is_var (items_decls 50 (m_items m)) x = true).
+Proof. intros D ext H m sn body x. exact (always_blocks_are_well_formed D ext H m sn body x). Qed.
+Print Assumptions clean_report_always_blocks.
+
+Theorem clean_report_clocks_declared : forall D ext, lint D ext = [] ->
+  forall m l body x, In m D -> In (IAlways (SEdges l) body) (m_items m) ->
+  In x (flat_map (fun p => expr_ids (snd p)) l) -> declared (items_decls 50 (m_items m)) x = true.
+Proof. intros D ext H m l body x. exact (clocks_are_declared D ext H m l body x). Qed.
+Print Assumptions clean_report_clocks_declared.
+
+(* no register is assigned from more than one process: the write sets of any two always blocks of a module
+   (those inside generate regions included) are disjoint *)
+Theorem clean_report_one_process_per_register : forall D ext, lint D ext = [] ->
+  forall m pre b1 mid b2 post x, In m D ->
+  always_writes 50 (m_items m) = pre ++ b1 :: mid ++ b2 :: post -> In x b1 -> In x b2 -> False.
+Proof. intros D ext H m pre b1 mid b2 post x. exact (no_variable_is_assigned_from_two_always_blocks D ext H m pre b1 mid b2 post x). Qed.
+Print Assumptions clean_report_one_process_per_register.
